@@ -745,6 +745,24 @@ def filtercover(repo, schema=None, sites=None):
             continue
         for t in holes:
             res.instances += 1
+            # a separate traversal may cover the hole: pattern [t, ..., Reference] whose action rejects the word
+            covered = False
+            for s2 in sites:
+                if s2 is site or s2.action is None or s2.pattern != [t, "Reference"]:
+                    continue
+                if (s2.skip or set()) & {"Expression", "Function", "Reference", "AttributeValue", t}:
+                    continue
+                if not s2.module.rel.endswith(site.module.rel.split("/")[-1]):
+                    continue
+                src2 = ast.unparse(s2.action.node)
+                consts = {c.value for n2 in ast.walk(s2.action.node) if isinstance(n2, ast.Compare)
+                          for c in ast.walk(n2) if isinstance(c, ast.Constant) and isinstance(c.value, str) and c.value.startswith("$")}
+                if w in consts and "errors.append" in src2:
+                    covered = True
+            if covered:
+                if len(res.samples) < 6:
+                    res.samples.append(f"{w} inside {t}: rejected by a dedicated traversal")
+                continue
             res.add(f"filtercover|{w}|{t}",
                     f"builtin word {w} is rejected by {site.action.name} everywhere except inside {t} subtrees "
                     f"(skip_descendants_of), but {unhandled[0].qualname} cannot handle it: using {w} inside "
